@@ -105,6 +105,9 @@ namespace vt
         explicit NB(uint64_t v) : id(v) { sim::fault_point(sim::FK_THROW); sim::registry().on_construct(this, 11, id, false); }
         NB(uint64_t a, uint64_t b) : id(a + b) { sim::fault_point(sim::FK_THROW); sim::registry().on_construct(this, 11, id, false); }
         NB(std::initializer_list<uint64_t>) : id(list_initialised) { sim::registry().on_construct(this, 11, id, false); }
+        // emplace<NB>({a}, std::move(arg)) has to forward: this overload consumes its argument, the const one copies
+        NB(std::initializer_list<uint64_t> il, Arg&& a) : id(*il.begin() + a.id) { sim::registry().on_construct(this, 11, id, false); a.consumed = true; }
+        NB(std::initializer_list<uint64_t> il, const Arg& a) : id(*il.begin() + a.id) { sim::registry().on_construct(this, 11, id, false); }
         NB(const HArg& a) : id(a.id) { sim::registry().use(&a, 10, "construction of the alternative from"); sim::fault_point(sim::FK_THROW); sim::registry().on_construct(this, 11, id, false); }
         NB(const NB& o) : id(o.id) { sim::fault_point(sim::FK_THROW); sim::registry().on_construct(this, 11, id, false); }
         NB(NB&& o) noexcept : id(o.id) { sim::registry().on_construct(this, 11, id, false); }
@@ -1380,7 +1383,14 @@ namespace
             bool threw = false;
             try
             {
-                if (st.b & 8) { slot[t].get().template emplace<X>(id - 1, uint64_t(1)); }
+                if ((st.b & 96) == 96)
+                {
+                    Arg a{1};
+                    slot[t].get().template emplace<X>({id - 1}, std::move(a));
+                    if (!a.consumed) viol("model", "value-category", "emplace<T>(initializer_list, Arg&&) built the alternative from a copy of its rvalue argument");
+                    SIM_PROBE("emplace_with_initializer_list_and_rvalue");
+                }
+                else if (st.b & 8) { slot[t].get().template emplace<X>(id - 1, uint64_t(1)); }
                 else if (st.b & 16) { slot[t].get().template emplace<1>(id - 1, uint64_t(1)); }
                 else { slot[t].get() = SV(mpark::in_place_index_t<1>{}, id - 1, uint64_t(1)); }
             }
